@@ -281,6 +281,9 @@ class Verdict:
     def finish(self, max_print=20):
         for k, h in sorted(self.known_hits.items()):
             print("KNOWN-FINDING: property=%s %s [%s; %d occurrence(s); e.g. %s]" % (self.prop, h["entry"]["what"], k, h["n"], h["first"]))
+        for e in self.known:        # every listed finding of this property is named, also when this run's inputs did not meet it
+            if e["id"] not in self.known_hits:
+                print("KNOWN-FINDING: property=%s %s [%s; listed, not met by the inputs of this run; witness: %s]" % (self.prop, e["what"], e["id"], e.get("witness", "")))
         os.makedirs(os.path.join(WORK, "replay"), exist_ok=True)
         seen = set()
         n = 0
